@@ -48,6 +48,9 @@ pub fn run(args: &Args) {
         };
         let legacy_first = rng.chance(1, 3);
         let twice = rng.chance(1, 4);
+        // a record that already carries hash parameters (a file of another producer, or an earlier protection) before the password is set
+        let prior = rng.chance(1, 3);
+        let prior_spin = *rng.pick(&[1u32, 1000, 50_000, 99_999, 200_000]);
         let mut book = new_file();
         book.get_sheet_mut(&0).unwrap().get_cell_mut("A1").set_value_string("x");
         let mut first_salt = String::new();
@@ -58,6 +61,9 @@ pub fn run(args: &Args) {
                     p.set_sheet(true);
                     if legacy_first {
                         p.set_password_raw("CBEB");
+                    }
+                    if prior {
+                        p.set_algorithm_name("SHA-256").set_salt_value("b2xkLXNhbHQtb2xkLXNhbHQ=").set_hash_value("b2xkLWhhc2g=").set_spin_count(prior_spin);
                     }
                     p.set_password(&password);
                     if twice {
@@ -71,6 +77,9 @@ pub fn run(args: &Args) {
                     if legacy_first {
                         p.set_workbook_password_raw("CBEB");
                     }
+                    if prior {
+                        p.set_workbook_algorithm_name("SHA-256").set_workbook_salt_value("b2xkLXNhbHQtb2xkLXNhbHQ=").set_workbook_hash_value("b2xkLWhhc2g=").set_workbook_spin_count(prior_spin);
+                    }
                     p.set_workbook_password(&password);
                     if twice {
                         first_salt = p.get_workbook_salt_value().to_string();
@@ -82,6 +91,9 @@ pub fn run(args: &Args) {
                     p.set_lock_revision(true);
                     if legacy_first {
                         p.set_revisions_password_raw("CBEB");
+                    }
+                    if prior {
+                        p.set_revisions_algorithm_name("SHA-256").set_revisions_salt_value("b2xkLXNhbHQtb2xkLXNhbHQ=").set_revisions_hash_value("b2xkLWhhc2g=").set_revisions_spin_count(prior_spin);
                     }
                     p.set_revisions_password(&password);
                     if twice {
@@ -97,6 +109,9 @@ pub fn run(args: &Args) {
         o.feat(&format!("kind:{}", kind));
         if legacy_first {
             o.feat("legacy-raw-password-before");
+        }
+        if prior {
+            o.feat("hash-parameters-present-before");
         }
         o.descr = jo(vec![("kind", js(kind)), ("password_chars", J::I(password.chars().count() as i64)), ("legacy_first", J::B(legacy_first))]);
         let mut status = "ok".to_string();
